@@ -1666,7 +1666,121 @@ def c11(tier):
                       assumptions=["single fault per run", "result comparison is on entries, metadata, contents and comment, not on offsets"])
 
 
-CHECKS = {"C11": c11, "C20": c20, "C10": c10, "C04": c04, "C15": c15, "C16": c16, "C09": c09, "C19": c19, "C03": c03, "C13": c13, "C14": c14, "C01": c01, "C02": c02, "C12": c12, "C17": c17}
+def apalache(spec, args, wd, tag):
+    out = os.path.join(wd, "apalache-" + tag)
+    p = subprocess.run(["apalache-mc", "check"] + args + ["--out-dir=" + out, os.path.join(vlib.SPEC, spec)],
+                       stdout=subprocess.PIPE, stderr=subprocess.STDOUT, text=True, timeout=900, cwd=wd)
+    import shutil
+    shutil.rmtree(out, ignore_errors=True)
+    return "EXITCODE: OK" in p.stdout and "NoError" in p.stdout, p.stdout[-1500:]
+
+
+def c06(tier):
+    import itertools
+    import refzip
+    rep = Report("C06", tier)
+    wd = vlib.workdir("C06", tier)
+    vlib.build_harness()
+    cfg = "MC_PathSan.cfg"
+    if tier == "thorough":
+        cfg = os.path.join(wd, "MC_PathSan8.cfg")
+        open(cfg, "w").write(open(os.path.join(vlib.SPEC, "MC_PathSan.cfg")).read().replace("MaxLen = 6", "MaxLen = 8"))
+    r = vlib.tlc_mc("MC_PathSan.tla", cfg, wd, timeout=1500, tag="mc-path")
+    rep.add_mc(r, os.path.basename(cfg))
+    if r["error"]:
+        rep.spec_violation(r, "MC_PathSan")
+    if tier == "thorough":
+        # the depth-counter walk over names of unbounded length: inductive invariant, discharged by Apalache
+        obl = [("init", ["--init=Init", "--inv=IndInv", "--length=0"]), ("step", ["--init=IndInit", "--inv=IndInv", "--length=1"]),
+               ("safety", ["--init=IndInit", "--inv=Safety", "--length=0"])]
+        done = 0
+        for name, args in obl:
+            ok, tail = apalache("PathWalk.tla", args, wd, name)
+            if not ok:
+                log(tail)
+                raise ToolTrouble("Apalache did not discharge PathWalk obligation " + name)
+            done += 1
+        rep.notes["apalache_obligations"] = {"obligations": len(obl), "discharged": done, "spec": "PathWalk.tla (IndInv: init, step, implies Safety)"}
+    sd = vlib.seed()
+    rnd = random.Random(sd * 6007 + 6)
+    names = []
+    # every string over {a . / \ NUL} up to 6 (thorough: 7) characters
+    alpha = [b"a", b".", b"/", b"\\", b"\x00"]
+    maxlen = 6 if tier == "quick" else 7
+    for ln in range(0, maxlen + 1):
+        for t in itertools.product(alpha, repeat=ln):
+            names.append(b"".join(t))
+    # component sequences (up to 6) with separator placements
+    comps = [b"a", b".", b"..", b"", b"b\\c", b"..\\x", b"...", b" ", b"C:", b"a\x00b", b"\x00"]
+    for _ in range(3000 if tier == "quick" else 200000):
+        k = rnd.randint(1, 6)
+        parts = [rnd.choice(comps) for _ in range(k)]
+        sep = [rnd.choice([b"/", b"\\", b"//"]) for _ in range(k - 1)]
+        s = rnd.choice([b"", b"/", b"\\"]) + b"".join(p + (sep[i] if i < k - 1 else b"") for i, p in enumerate(parts)) + rnd.choice([b"", b"/", b"\\"])
+        names.append(s)
+    # random Unicode / control-character names
+    for _ in range(500 if tier == "quick" else 20000):
+        n = rnd.choice([1, 3, 10, 40, 200])
+        s = "".join(chr(rnd.choice([rnd.randrange(0, 128), rnd.randrange(0, 128), 46, 47, 92, rnd.randrange(0x80, 0x800), rnd.randrange(0x4e00, 0x9fff)])) for _ in range(n))
+        names.append(s.encode()[:500])
+    names = list(dict.fromkeys(names))
+    rep.notes["names"] = len(names)
+    scs = []
+    per = 400
+    for i in range(0, len(names), per):
+        ents = [{"name": nm, "utf8": True, "method": 0, "data": b""} for nm in names[i:i + per]]
+        b, v = refzip.build({"entries": ents})
+        scs.append({"sc": "pa%06d" % i, "hex": b.hex(), "expect": [], "paths": True, "max_entries": 0})
+    progs = os.path.join(wd, "paths-scenarios.ndjson")
+    trace = os.path.join(wd, "paths-trace.ndjson")
+    vlib.write_ndjson(progs, scs)
+    vlib.run_harness(["rexec", progs, trace])
+    # keep only the path events (the rest of these traces belongs to C03's trace spec)
+    evs = [e for e in vlib.read_ndjson(trace) if e.get("ev") in ("RPath", "Reset")]
+    vlib.write_ndjson(trace, evs)
+    res = vlib.validate_segments("Trace_Path.tla", "Trace_Path.cfg", trace, wd, tag="paths")
+    rep.add_tv(res, {s["sc"]: {"sc": s["sc"], "hex": s["hex"][:200000]} for s in scs}, "paths")
+    # the streaming metadata's twins on a sample
+    sscs = []
+    for i in range(0, len(names), per * (8 if tier == "quick" else 1)):
+        ents = [{"name": nm, "utf8": True, "method": 0, "data": b"x"} for nm in names[i:i + 60]]
+        b, v = refzip.build({"entries": ents})
+        sscs.append({"sc": "ps%06d" % i, "hex": b.hex(), "plan": [0] * len(ents), "pcrc": ["00000000"] * len(ents), "visitor": True})
+    progs = os.path.join(wd, "spaths-scenarios.ndjson")
+    strace = os.path.join(wd, "spaths-trace.ndjson")
+    vlib.write_ndjson(progs, sscs)
+    vlib.run_harness(["sexec", progs, strace])
+    sev = [e for e in vlib.read_ndjson(strace) if e.get("ev") in ("SPath", "Reset")]
+    vlib.write_ndjson(strace, sev)
+    res2 = vlib.validate_segments("Trace_Path.tla", "Trace_Path.cfg", strace, wd, tag="spaths")
+    rep.add_tv(res2, {s["sc"]: {"sc": s["sc"], "hex": s["hex"][:200000]} for s in sscs}, "spaths")
+    rep.notes["spec_counters"] = dict(vlib.LAST_STATS)
+    rep.evaluations += len(names) + len(sev)
+    for nm in names:
+        rep.distinct.add(nm)
+    ex = next(e for e in evs if e.get("ev") == "RPath" and len(e["raw"]) > 3)
+    rep.samples.append({"name_bytes": ex["raw"], "enclosed": ex["enclosed"], "mangled": ex["mangled"]})
+    seg = [e for e in evs if e.get("sc") == scs[0]["sc"]][:40]
+    k = next(i for i, e in enumerate(seg) if e.get("ev") == "RPath" and e["enclosed"])
+    def mutate(es, k=k):
+        es[k]["enclosed"] = []
+        return "RPath[%d].enclosed replaced by None" % k
+    nc = vlib.corrupt_and_expect_reject("Trace_Path.tla", "Trace_Path.cfg", seg, wd, mutate, tag="paths-neg")
+    rep.neg_controls.append(nc)
+    if not nc["rejected"]:
+        raise ToolTrouble("negative control did not fire")
+    lvl = "model_checking"
+    return rep.finish(lvl,
+                      "MC_PathSan: EnclosedSafe/EnclosedComplete/MangledSafe for every name over {a . / \\ NUL} up to 6 (thorough 8) characters; "
+                      "thorough additionally discharges the inductive invariant of the depth walk for names of unbounded length with Apalache "
+                      "(PathWalk.tla); binding: every such string (thorough: up to 7 characters), component sequences of up to 6 components with "
+                      "'/', '\\', '//' separators, leading/trailing separators and NULs, and random Unicode/control names are put into archives by the "
+                      "independent builder; enclosed_name/mangled_name of the seekable reader and of the streaming metadata must equal "
+                      "PathSan!Enclosed/Mangled computed by TLC from the name bytes",
+                      assumptions=["Unix host path semantics", "names in TLA+-decided cases are <= 500 bytes"])
+
+
+CHECKS = {"C06": c06, "C11": c11, "C20": c20, "C10": c10, "C04": c04, "C15": c15, "C16": c16, "C09": c09, "C19": c19, "C03": c03, "C13": c13, "C14": c14, "C01": c01, "C02": c02, "C12": c12, "C17": c17}
 
 
 def setup():
